@@ -7,7 +7,7 @@ CONSTANTS
   Tags = {"t1", "t2"}
   Fails = {"m", "v"}
   Codes = {0, 1}
-  CodeOverride = FALSE
+  CodeOverride = TRUE
   SameFs = FALSE
   TempRename = FALSE
   Memo = "off"
